@@ -797,7 +797,8 @@ impl FrontendInternal {
         queue_index: usize,
         fd: RawFd,
     ) -> VhostUserResult<VhostUserMsgHeader<FrontendReq>> {
-        if queue_index as u64 >= self.max_queue_num {
+        // The payload only has 8 bits for the vring index (bit 8 is the invalid FD flag).
+        if queue_index as u64 >= self.max_queue_num || queue_index > 0xff {
             return Err(VhostUserError::InvalidParam);
         }
         self.check_state()?;
